@@ -6,4 +6,6 @@ cd "$(dirname "$0")"
 ./check.sh build || exit 1
 ./bin/pvmc list >/dev/null || exit 1
 ./bin/pvmc warmup >/dev/null 2>&1
+# warm the race-detector build cache (used by the C18 check)
+(cd mc && GOFLAGS=-mod=mod GOPROXY=off GOSUMDB=off GOTOOLCHAIN=local CGO_ENABLED=1 go build -race -tags verif -overlay ../bin/pvmc.overlay.json -o ../bin/pvmc-race ./cmd/pvmc 2>/dev/null) || true
 exit 0
